@@ -9,24 +9,33 @@ HARNESS_BIN = "c06"
 NCASES = {"quick": 24000, "thorough": 400000}
 CASE_TIMEOUT = {"quick": 30, "thorough": 120}
 
-LEVEL_TEXT = ("Coq theorems for all inputs (coq/props/C06.v, 29 statements incl. 6 refutations of the open findings on their witnesses): the as-is model of FloatEncoding::encode (one text, the f32 and "
+LEVEL_TEXT = ("Coq theorems for all inputs (coq/props/C06.v, 45 statements incl. 6 refutations of the open findings on their witnesses): the as-is model of FloatEncoding::encode (one text, the f32 and "
               "f64 constants) returns the round-to-nearest-even bit pattern and the true error sign of mantissa*2^exponent for every "
               "i32/i64 mantissa and every exponent (overflow, normal, subnormal, underflow branches); decode is its inverse on every "
-              "finite pattern; truncation to the top bits with a sticky bit keeps the correctly rounded result, hence UBig::to_f32/"
-              "to_f64 on the multi-word route are correct for every integer; TryFrom<f32/f64> for UBig/IBig succeeds exactly on the "
+              "finite pattern; UBig/IBig::to_f32/to_f64 are correct for EVERY integer: the multi-word route (top 31/63 bits + sticky bit, then encode) and the "
+              "double-word route (native cast, error sign recovered by casting back, the saturation case of the all-ones double word) for any double-word size; "
+              "RBig/Relaxed::to_f32/to_f64 as a whole (exponent bookkeeping, quotient with two guard bits and a sticky bit, overflow and underflow shortcuts) return the "
+              "correctly rounded value of N/D with the true error sign for every numerator and positive denominator; the rounding specification itself is proved equal to "
+              "Flocq's binary_normalize (mode_NE) + bits_of_b32/b64 with the error sign as Rcompare of the rounded against the exact real, for every dyadic m*2^e (all signs, "
+              "subnormals, carry, overflow), so encode and the integer conversions are stated against Flocq directly; TryFrom<f32/f64> for UBig/IBig succeeds exactly on the "
               "integers with their value; the primitive <-> UBig/IBig range checks accept exactly the range of the type for any word "
               "size and round-trip. Every implementation answer of every conversion named by the property is judged by the extracted "
               "specification on generated inputs.")
 LEVEL_NOTE = ("Trusted: Coq kernel, extraction + FastZ.v, zarith, harness, the contract of Rust's `as` casts between integers and floats "
-              "(round to nearest even / truncate, saturating). Compared on every run but NOT proved: the double-word route of to_f32/"
-              "to_f64 (native casts), RBig::to_f32/to_f64 (the rational sticky-rounding lemma and the main branch are proved, the exponent bookkeeping and the two shortcut branches are not), FBig::to_f32/to_f64, "
-              "RBig::to_float, TryFrom between FBig/RBig and integers/floats. FBig -> f32/f64 for bases other than 2 goes through "
+              "(uN as f32/f64 = round to nearest even, f as uN = truncate and saturate; modelled as cast_uint = the rounding specification and cast_back). The in-house "
+              "specification ieee_rne is no longer trusted for dyadic sources (proved = Flocq); for a rational source N/D that is not dyadic it is the definition of "
+              "'correctly rounded' (round_rat_at / spec_round on Z). Compared on every run but NOT proved: FBig::to_f32/to_f64 (base 2 and other bases), "
+              "RBig::to_float, TryFrom between FBig/RBig and integers/floats, to_int, to_f32_fast/to_f64_fast (bounded error only). FBig -> f32/f64 for bases other than 2 goes through "
               "convert_base: only the routes without logarithm are modelled (|exponent| <= 38 or power-of-two base); the logarithm "
-              "route is C08's. IBig arithmetic under the conversions is taken as Z (C01/C02/C09).")
-TECHNIQUE = "Coq proof (as-is models of encode/decode/to_f32/to_f64/range checks = Z-level IEEE specification) + extracted specification on a correspondence run"
+              "route is C08's. IBig arithmetic under the conversions is taken as Z (C01/C02/C09). The models are hand transcriptions tied to the code by the correspondence run "
+              "(asis=same on every case), which now includes integers whose discarded part holds a single bit at every distance from the truncation point.")
+TECHNIQUE = "Coq proof (as-is models of encode/decode/to_f32/to_f64/range checks = Z-level IEEE specification = Flocq binary_normalize) + extracted specification on a correspondence run"
 RULE = ("cases = conversion x source values: every primitive type at MIN/MAX and one beyond on both sides; integers 2^k+-{0,1,2} for k at "
         "8,16,24,25,32,53,54,64,65,128,129,1024 and the f32/f64 overflow thresholds (2^128-2^104, 2^128-2^103, 2^1024-2^971, 2^1024-2^970) "
-        "+-1; integers made of a 24/53-bit head, a tie / near-tie / quarter pattern below it and up to 200 further bits; every class of "
+        "+-1; integers made of a 24/53-bit head, a tie / near-tie / quarter pattern below it and up to 200 further bits; integers cut 30..32 / 62..64 bits (the truncation "
+        "of the multi-word route, one more, one less) and 24..26 / 53..55 bits below the top bit with every guard pattern above the cut and a discarded "
+        "part holding exactly one set bit 0..3 places below the cut, at a word boundary, at bit 0 or anywhere (also none, two, all), for "
+        "discarded lengths 1..1000; every class of "
         "IEEE pattern (+-0, smallest/largest subnormal, smallest normal, MAX, +-inf, NaN, integers, halves); encode over the whole "
         "i32/i64 x exponent range around overflow, the normal/subnormal border and underflow; rationals whose quotient has 24..27 / "
         "53..56 bits with exact ties and near-ties, scaled to every exponent class including subnormal and overflow; floats of base 2, "
@@ -40,7 +49,8 @@ TRUSTED_BASE = [
     "Coq 8.16.1 kernel",
     "extraction: ExtrOcamlBasic + ExtrOcamlZBigInt + coq/extract/FastZ.v directives; zarith 1.12; oracle/driver_c06.ml (fractions of the case operands, reduction by gcd)",
     "harness/src/bin/c06.rs and hlib: integers move through raw words, floats through to_bits/from_bits",
-    "Rust's primitive casts: `uN as f32/f64` rounds to nearest even, `f as uN` truncates and saturates (modelled as cast_uint / cast_back)",
+    "Rust's primitive casts: `uN as f32/f64` rounds to nearest even, `f as uN` truncates and saturates (modelled as cast_uint / cast_back; what the code does with them is proved)",
+    "Flocq 's IEEE754.Binary / Bits (binary_normalize, bits_of_b32/b64) as the reference meaning of the rounding specification; the standard library's real-number axioms (ClassicalDedekindReals.sig_not_dec, sig_forall_dec, functional_extensionality_dep, Classical_Prop.classic) enter through it",
     "IBig shifts, division and bit_len under the conversions behave as on Z (C01, C02, C09); round tables of float/src/round.rs regenerated by tools/translate.py",
 ]
 ASSUMPTIONS = [
@@ -99,9 +109,57 @@ def head_tail(rng, prec, extra=None):
     return (m << k) + t
 
 
+CUTS = {"f32": [31, 31, 31, 32, 30, 24, 25, 26], "f64": [63, 63, 63, 64, 62, 53, 54, 55]}
+LENS = [1, 2, 3, 4, 8, 11, 12, 33, 40, 41, 63, 64, 65, 66, 75, 76, 100, 127, 128, 129, 130, 160, 191, 192, 193, 200, 256, 257, 512, 937, 960, 961, 970, 971]
+
+
+def sticky_int(rng, f):
+    """an integer cut at T bits below its top bit (T = the 31/63 bits the multi-word route hands to encode, one more/less, and the
+    24/53-bit precision with its guard bits): a p-bit head, every kind of guard pattern between the rounding position and the cut,
+    and a discarded part with exactly ONE set bit at a chosen distance below the cut (0, 1, 2, 3 bits below it, at a word boundary,
+    at bit 0, anywhere), none, two, or all - for every length class up to the overflow threshold.  The single bit right below the
+    cut is the bit a sticky computation over one bit too few loses; the bit right above it is the one a cut one bit too high loses."""
+    p = FMT[f][0]
+    T = rng.choice(CUTS[f])
+    low = rng.choice(LENS + [rng.range(1, 1000)])          # number of discarded bits
+    if f == "f32" and rng.chance(2, 3):
+        low = min(low, 128 - T - rng.below(2))
+    head = rng.choice([(1 << p) - 1, 1 << (p - 1), (1 << (p - 1)) + 1, rng.bits(p) | (1 << (p - 1)), rng.bits(p) | (1 << (p - 1)) | 1,
+                       (rng.bits(p) | (1 << (p - 1))) & ~1])
+    g = T - p
+    if g > 0:
+        half = 1 << (g - 1)
+        guard = rng.choice([0, 0, 0, half, half, half, half - 1, (1 << g) - 1, (half + 1) % (1 << g), rng.bits(g), 1 % (1 << g)])
+        top = (head << g) | guard
+    else:
+        top = head
+    k = rng.below(12)
+    if k < 4:
+        tail = 1 << max(0, low - 1 - k)                  # one bit: 0..3 positions below the cut
+    elif k == 4:
+        tail = 1                                         # one bit at the very bottom
+    elif k == 5:
+        tail = 1 << rng.below(low)                       # one bit anywhere
+    elif k == 6:
+        tail = 1 << min(low - 1, rng.choice([63, 64, 127, 128, 191, 192]))   # one bit at a word boundary
+    elif k == 7:
+        tail = 0
+    elif k == 8:
+        tail = (1 << low) - 1
+    elif k == 9:
+        tail = (1 << (low - 1)) | 1
+    elif k == 10:
+        tail = (1 << rng.below(low)) | (1 << rng.below(low))
+    else:
+        tail = rng.bits(low)
+    return (top << low) | tail
+
+
 def gen_bigint(rng, signed):
-    k = rng.below(6)
-    if k == 0:
+    k = rng.below(7)
+    if k == 6:
+        v = sticky_int(rng, rng.choice(["f32", "f64"]))
+    elif k == 0:
         v = edge_int(rng)
     elif k == 1:
         v = head_tail(rng, 24)
@@ -252,13 +310,17 @@ def gen_cases(rng, tier, n):
             out.append("%s %s %x" % (rng.choice(["f2u", "f2i"]), f, gen_bits(rng, f)))
         elif op == "int2f":
             v = gen_bigint(rng, True)
-            if rng.chance(1, 3):
+            if rng.chance(1, 6):
+                v = sticky_int(rng, f) * rng.choice([1, -1])
+            elif rng.chance(1, 3):
                 p = FMT[f][0]
                 v = (rng.bits(rng.range(1, p + 1)) | 1) << rng.choice([0, 0, 1, 2, 5, 30, 70, 100, 104, 105, 971, 972])
                 v = -v if rng.chance(1, 2) else v
             out.append("i2f %s %s" % (f, hx(v)) if rng.chance(1, 2) else "u2f %s %s" % (f, hx(abs(v))))
         elif op == "tof":
             v = gen_bigint(rng, True)
+            if rng.chance(2, 5):
+                v = sticky_int(rng, f) * rng.choice([1, -1])
             out.append("itof %s %s" % (f, hx(v)) if rng.chance(1, 2) else "utof %s %s" % (f, hx(abs(v))))
         elif op == "enc":
             man, e = gen_enc(rng, f)
